@@ -34,8 +34,8 @@ mod h {
             }
             s += 1;
         }
-        let tc = TypeChecker { child, declared: None, n_declared: 0, fail_declare: kani::any() };
-        let mut rt = Rt { type_checker: tc };
+        let tc = TypeChecker { child, declared: None, n_declared: 0, fail_declare: kani::any(), name_taken: false };
+        let mut rt = Rt { type_checker: tc, types: Types { items: [None; 4], n: 0 } };
         // a path of 0..3 segments
         let len: usize = kani::any();
         kani::assume(len <= 3);
@@ -86,10 +86,52 @@ mod h {
     fn canary_c18_u1_declare_import() {
         let mut child = [[None; 3]; NSC];
         child[0][0] = Some(1);
-        let tc = TypeChecker { child, declared: None, n_declared: 0, fail_declare: false };
-        let mut rt = Rt { type_checker: tc };
+        let tc = TypeChecker { child, declared: None, n_declared: 0, fail_declare: false, name_taken: false };
+        let mut rt = Rt { type_checker: tc, types: Types { items: [None; 4], n: 0 } };
         let u = Use { imports: vec![vec!["a".to_string(), "b".to_string()]], location: Location };
         let res = rt.declare_import(ScopeRef(0), &u);
         assert!(res.is_err(), "CANARY:C18.import.reachable_path_succeeds");
+    }
+
+    /// declare_type (C18): "fails exactly when ... a name is already taken in its scope, a Rust type
+    /// is registered twice"; on success exactly one runtime type is added under (scope, ident).
+    #[kani::proof]
+    #[kani::unwind(6)]
+    fn c18_u2_declare_type() {
+        let tc = TypeChecker { child: [[None; 3]; NSC], declared: None, n_declared: 0, fail_declare: false, name_taken: kani::any() };
+        let mut rt = Rt { type_checker: tc, types: Types { items: [None; 4], n: 0 } };
+        // up to two types registered earlier, anywhere, under any name
+        let n_old: usize = kani::any();
+        kani::assume(n_old <= 2);
+        let olds: [(u8, u32, usize); 2] = [(kani::any(), kani::any(), kani::any()), (kani::any(), kani::any(), kani::any())];
+        let mut i = 0;
+        while i < 2 {
+            kani::assume(olds[i].0 < 3 && olds[i].1 < 3 && olds[i].2 < 3);
+            if i < n_old {
+                rt.types.push(RuntimeType {
+                    name: ResolvedName { scope: ScopeRef(olds[i].2), ident: Identifier(olds[i].1) },
+                    type_id: TypeId(olds[i].0),
+                    movability: Unit,
+                    eq_fn: Unit,
+                    layout: Unit,
+                    _docstring: Doc,
+                });
+            }
+            i += 1;
+        }
+        let (tid, ident, scope): (u8, u32, usize) = (kani::any(), kani::any(), kani::any());
+        kani::assume(tid < 3 && ident < 3 && scope < 3);
+        let ty = Type { ident: Identifier(ident), rust_name: "", doc: Doc, type_id: TypeId(tid), layout: Unit, movability: Unit, eq_fn: Unit, location: Location };
+        let res = rt.declare_type(ScopeRef(scope), &ty);
+        let registered_twice = (n_old >= 1 && olds[0].0 == tid) || (n_old >= 2 && olds[1].0 == tid);
+        assert!(res.is_err() == (registered_twice || rt.type_checker.name_taken), "OBL:C18.types.fails_exactly_when_rust_type_registered_twice_or_name_taken");
+        if res.is_ok() {
+            let last = rt.types.items[n_old];
+            assert!(rt.types.n == n_old + 1 && matches!(last, Some(t) if t.type_id == TypeId(tid) && t.name == ResolvedName { scope: ScopeRef(scope), ident: Identifier(ident) }), "OBL:C18.types.success_adds_the_type_under_its_scope_and_name");
+        } else {
+            assert!(rt.types.n == n_old, "OBL:C18.types.failure_adds_nothing");
+        }
+        kani::cover!(registered_twice && n_old == 2 && olds[1].1 == ident && olds[1].2 != scope, "COV:C18.types.same_name_other_scope_same_rust_type_reached");
+        kani::cover!(res.is_ok() && n_old == 2, "COV:C18.types.third_type_ok_reached");
     }
 }
